@@ -25,7 +25,11 @@ PROP = {
             "streams, modules); inputs whose length fields ask for > 4 GiB (64-bit length form) are parsed in a child process (memory limit, 60 s budget) "
             "and a dying child is the violation 'oom'/'hang'/'crash'; (2) the whole pipeline on every truncation and 4 XOR masks per "
             "position (thorough: 11 masks + 200 generated files with random alterations), parallel 1-4, pipe sizes 1/2/8/1024, "
-            "plain/bidirectional, restore on/off, checkpoint on target / in memory; (3) on 2 files x parallel 1-4 x pipe sizes x "
+            "plain/bidirectional, restore on/off, checkpoint on target / in memory; (2b) a snapshot with a STREAM value (hand-built listpack, "
+            "type 15): truncations and 4 (thorough 13) XOR masks per position incl. masks that produce invalid listpack element bytes, "
+            "expansion path so the value decoder runs in the workers, executed in a supervised child process (6 GiB address-space "
+            "limit, 40 s per case: a silent or dying child is the violation 'hang'/'oom'/'crash' for that input, the child is restarted "
+            "behind it); (3) on 2 files x parallel 1-4 x pipe sizes x "
             "plain/bidirectional: intact run, cancel before start, and for EVERY request k of the run: target error at k (FailAt), "
             "cancel at k (Hook), and the D6 window - hold request k inside the double, synctest.Wait until parser, distributor and "
             "other workers are quiescent, cancel, wait, release (x2, thorough x6). Monitor: whenever not every snapshot key is on "
@@ -65,7 +69,7 @@ MANIFEST = {
             "refused unless it becomes all-zero ('checksum disabled'). Tie: exhaustive truncation/XOR sweep of small files "
             "through the real parser (vs model) and the real SendRdb against the target double with fault injection, cancellation at "
             "every request and the hold-cancel-release schedule under synctest; independent Go monitor of the property.",
-    "note": "trusted: Lean kernel, RDB framing transcription, target double, synctest; models of the REPAIRED code (D6, D19, D22 fixed)",
+    "note": "trusted: Lean kernel, RDB framing transcription, target double, synctest; models of the REPAIRED code (D6, D19 fixed; D22, D23 are crash/hang repairs outside the models)",
     "technique": "Lean 4 proof (12-clause inductive invariant over an event system; sequential-reader combinator lemmas) + exhaustive "
                  "small-scope differential correspondence + fault/cancellation schedule exploration + monitor",
 }
